@@ -393,7 +393,7 @@ def policy_cases(kind: str, seed: int, n_keys: int, n: int = 3) -> list:
                 atoms = {}
                 if 0.0 < eps < 1.0:
                     # "departs from the greedy action with probability at most epsilon": frequency over N keys, 6 sigma
-                    N = 600
+                    N = 2400
                     acts = np.asarray(jax.vmap(lambda kk: pol(None, obs, key=kk, action_mask=mj)[1])(jr.split(jr.key(seed + 77), N)))
                     dep = float(np.mean(acts != int(a)))
                     atoms["DepartsFromGreedyWithProbabilityAtMostEpsilon"] = bool(dep <= eps + 6.0 * math.sqrt(eps * (1 - eps) / N) + 2.0 / N)
